@@ -304,6 +304,8 @@ func runC04(c *core.Ctx) {
 	}
 
 	runR43(c, prods)
+	c.Rule("R4.15", "every per-chunk request loop addresses chunk keys 0, 1, 2, ... by its own counter (start 0, step 1), bounded by the metadata's chunk count or driven by the chunk iterator", 5)
+	runR415(c, "R4.15", prods)
 	runR44(c, prods)
 	c.Rule("R4.5", "chunk placement: chunk n of a value occupies bytes [chunkSize*n, min(chunkSize*n+chunkSize, totalLength)) computed from the metadata's chunk size and length", 2)
 	c.Rule("R4.6", "a loop collecting the replies of requests pipelined before it runs to its bound (NumChunks): no early exit leaves replies unread on the connection", 2)
